@@ -698,6 +698,47 @@ theorem tailFields_allWs (t : Str) (h : ∀ c ∈ t, isWs c = true) : tailFields
   | nil => rfl
   | cons c _ => simp [h c List.mem_cons_self]
 
+/-- what the end of `re_swc` accepts starts with a blank (or is empty) -/
+theorem wsHead_of_tailFields {t : Str} {tl : Bool} (h : tailFields t = some tl) : WsHead t := by
+  unfold tailFields at h
+  cases t with
+  | nil => exact wsHead_nil
+  | cons c cs =>
+    by_cases hc : isWs c = true
+    · exact wsHead_cons hc
+    · simp [hc] at h
+
+/-- a trailing part that starts with a character other than a blank is not accepted -/
+theorem tailFields_none_of_head {c : Char} {cs : Str} (hc : isWs c = false) : tailFields (c :: cs) = none := by
+  unfold tailFields; simp [hc]
+
+/-- blank-separated fields made of trailing characters (digits, signs, dot, comma, `e`, `E`) are accepted, with the warning flag -/
+theorem tailFields_fields (w f rest : Str) (hw : w ≠ []) (hws : ∀ c ∈ w, isWs c = true) (hf : f ≠ []) (hft : ∀ c ∈ f, isTailTok c = true)
+    (tl : Bool) (hr : tailFields rest = some tl) : tailFields (w ++ f ++ rest) = some true := by
+  unfold tailFields at hr ⊢
+  have hrall : rest.all (fun c => isWs c || isTailTok c) = true := by
+    cases hb : rest.all (fun c => isWs c || isTailTok c) with
+    | true => rfl
+    | false => rw [hb] at hr; simp at hr
+  have hall : (w ++ f ++ rest).all (fun c => isWs c || isTailTok c) = true := by
+    rw [List.all_append, List.all_append, hrall]
+    have h1 : w.all (fun c => isWs c || isTailTok c) = true := by
+      rw [List.all_eq_true]; intro c hc; simp [hws c hc]
+    have h2 : f.all (fun c => isWs c || isTailTok c) = true := by
+      rw [List.all_eq_true]; intro c hc; simp [hft c hc]
+    rw [h1, h2]; rfl
+  have hany : (w ++ f ++ rest).any isTailTok = true := by
+    rw [List.any_append, List.any_append]
+    have : f.any isTailTok = true := by
+      cases f with
+      | nil => exact absurd rfl hf
+      | cons c cs => simp [hft c List.mem_cons_self]
+    rw [this]; simp
+  rw [hall, hany]
+  cases w with
+  | nil => exact absurd rfl hw
+  | cons c cs => simp [hws c List.mem_cons_self]
+
 /-- seven tokens, each accepted in full by its recogniser, separated by whitespace: a data line -/
 theorem parseData_seven (lead w1 w2 w3 w4 w5 w6 trail t1 t2 t3 t4 t5 t6 t7 : Str)
     (a b : Nat) (x y z r : Sci) (p : Int)
@@ -733,6 +774,43 @@ theorem parseData_seven (lead w1 w2 w3 w4 w5 w6 trail t1 t2 t3 t4 t5 t6 t7 : Str
   have b6 := needWs_step n6 h6 (s7.append trail)
   have a7 := pidTok_step e7 (wsHead_of_allWs ht).noNum
   have d8 := tailFields_allWs trail ht
+  simp [parseData, d0, a1, b1, a2, b2, a3, b3, a4, b4, a5, b5, a6, b6, a7, extras, d8]
+
+/-- … followed by any trailing part the end of `re_swc` accepts (`tailFields`): a data line, with the warning flag of that part -/
+theorem parseData_seven_tail (lead w1 w2 w3 w4 w5 w6 trail t1 t2 t3 t4 t5 t6 t7 : Str)
+    (a b : Nat) (x y z r : Sci) (p : Int)
+    (tl : Bool) (hl : ∀ c ∈ lead, isWs c = true) (ht : tailFields trail = some tl)
+    (n1 : w1 ≠ []) (h1 : ∀ c ∈ w1, isWs c = true) (n2 : w2 ≠ []) (h2 : ∀ c ∈ w2, isWs c = true)
+    (n3 : w3 ≠ []) (h3 : ∀ c ∈ w3, isWs c = true) (n4 : w4 ≠ []) (h4 : ∀ c ∈ w4, isWs c = true)
+    (n5 : w5 ≠ []) (h5 : ∀ c ∈ w5, isWs c = true) (n6 : w6 ≠ []) (h6 : ∀ c ∈ w6, isWs c = true)
+    (e1 : intTok t1 = some (a, [])) (e2 : intTok t2 = some (b, []))
+    (e3 : floatPrefix t3 = some (x, [])) (e4 : floatPrefix t4 = some (y, []))
+    (e5 : floatPrefix t5 = some (z, [])) (e6 : floatPrefix t6 = some (r, []))
+    (e7 : pidTok t7 = some (p, [])) :
+    parseData 0 (lead ++ (t1 ++ (w1 ++ (t2 ++ (w2 ++ (t3 ++ (w3 ++ (t4 ++ (w4 ++ (t5 ++ (w5 ++ (t6 ++ (w6 ++ (t7 ++ trail))))))))))))))
+      = some (⟨a, b, x, y, z, r, p, []⟩, tl) := by
+  have s1 := intTok_some_start e1
+  have s2 := intTok_some_start e2
+  have s3 := floatPrefix_some_start e3
+  have s4 := floatPrefix_some_start e4
+  have s5 := floatPrefix_some_start e5
+  have s6 := floatPrefix_some_start e6
+  have s7 := pidTok_some_start e7
+  have d0 := dropWs_append lead _ hl (s1.append (w1 ++ (t2 ++ (w2 ++ (t3 ++ (w3 ++ (t4 ++ (w4 ++ (t5 ++ (w5 ++ (t6 ++ (w6 ++ (t7 ++ trail))))))))))))).noWsHead
+  have a1 := intTok_step e1 (wsHead_append (s := t2 ++ (w2 ++ (t3 ++ (w3 ++ (t4 ++ (w4 ++ (t5 ++ (w5 ++ (t6 ++ (w6 ++ (t7 ++ trail))))))))))) n1 h1).noDig
+  have b1 := needWs_step n1 h1 (s2.append (w2 ++ (t3 ++ (w3 ++ (t4 ++ (w4 ++ (t5 ++ (w5 ++ (t6 ++ (w6 ++ (t7 ++ trail)))))))))))
+  have a2 := intTok_step e2 (wsHead_append (s := t3 ++ (w3 ++ (t4 ++ (w4 ++ (t5 ++ (w5 ++ (t6 ++ (w6 ++ (t7 ++ trail))))))))) n2 h2).noDig
+  have b2 := needWs_step n2 h2 (s3.append (w3 ++ (t4 ++ (w4 ++ (t5 ++ (w5 ++ (t6 ++ (w6 ++ (t7 ++ trail)))))))))
+  have a3 := floatPrefix_step e3 (wsHead_append (s := t4 ++ (w4 ++ (t5 ++ (w5 ++ (t6 ++ (w6 ++ (t7 ++ trail))))))) n3 h3).noNum
+  have b3 := needWs_step n3 h3 (s4.append (w4 ++ (t5 ++ (w5 ++ (t6 ++ (w6 ++ (t7 ++ trail)))))))
+  have a4 := floatPrefix_step e4 (wsHead_append (s := t5 ++ (w5 ++ (t6 ++ (w6 ++ (t7 ++ trail))))) n4 h4).noNum
+  have b4 := needWs_step n4 h4 (s5.append (w5 ++ (t6 ++ (w6 ++ (t7 ++ trail)))))
+  have a5 := floatPrefix_step e5 (wsHead_append (s := t6 ++ (w6 ++ (t7 ++ trail))) n5 h5).noNum
+  have b5 := needWs_step n5 h5 (s6.append (w6 ++ (t7 ++ trail)))
+  have a6 := floatPrefix_step e6 (wsHead_append (s := t7 ++ trail) n6 h6).noNum
+  have b6 := needWs_step n6 h6 (s7.append trail)
+  have a7 := pidTok_step e7 (wsHead_of_tailFields ht).noNum
+  have d8 := ht
   simp [parseData, d0, a1, b1, a2, b2, a3, b3, a4, b4, a5, b5, a6, b6, a7, extras, d8]
 
 theorem classify_of_parseData {nx : Nat} {l : Str} {row : Row} {tl : Bool}
